@@ -549,6 +549,15 @@ def cases(tier, seed):
                             base = dict(n=n, d=d, field=field, form=form, solver=solver, prior=pick(priors, i), kind="mixed", rank=rank, seed=sd + i)
                             for cl in (clauses if thorough or not slow else clauses[:1] + clauses[2:5]):
                                 add(cl, base, icl("min_error", form, field, "dm", solver))
+            # ---- one list, three numpy dtypes (an integer basis ket first, then a real, then complex states)
+            if sd == seeds[0]:
+                for form in forms:
+                    for n, d in ((2, 2), (3, 2), (3, 3), (4, 3)):
+                        for rep in reps:
+                            i += 1
+                            base = dict(n=n, d=d, field="complex", form=form, solver=solver, rep=rep, prior=pick(["uniform", "random"], i), kind="mixed-dtype", seed=sd + i)
+                            for cl in EX_GENERIC + ["ex.relabel_invariance"]:
+                                add(cl, base, icl("min_error", form, "complex", "mixed-dtype-list", solver))
             # ---- a state that is never prepared (exact zero prior, not in the last position): the value is 0 and the labelled operators attain it
             if sd == seeds[0]:
                 for field in fields:
